@@ -34,14 +34,18 @@ def gen_ruleset(rng, max_rules=6, max_ns=3, depth=2, allow_for=True, cond_kinds=
         letter = rng.choice("rs")
         # name must not start with a forbidden prefix of this namespace
         name = None
+        # rule names are unique inside a namespace only: number them per namespace, so that two namespaces
+        # often declare rules of the same name
+        idx = per_ns_names.setdefault(ns, [0])
         for attempt in range(20):
-            cand = "%s%d" % (letter, i)
+            cand = "%s%d" % (letter, idx[0])
             if not any(cand.startswith(p) for p in forbidden.get(ns, ())):
                 name = cand
                 break
             letter = rng.choice("tuvw")
         if name is None:
             continue
+        idx[0] += 1
         nstr = rng.range(0, 3)
         strs = [rng.choice(RAW_POOL) if (raw_regex and rng.below(100) < raw_regex) else rng.choice(POOL)
                 for _ in range(nstr)]
